@@ -1,5 +1,6 @@
 # Loaded by child interpreters (PYTHONPATH) while traces are being recorded: installs the probe lazily when
-# xdoctest.doctest_example is first imported.  Does nothing unless XDOCTEST_VERIF_TRACE is set.
+# the xdoctest package has been imported (its __init__ imports every submodule the probe wraps).  Does nothing unless
+# XDOCTEST_VERIF_TRACE is set.
 import os
 import sys
 
@@ -11,7 +12,7 @@ if os.environ.get('XDOCTEST_VERIF_TRACE'):
         busy = False
 
         def find_spec(self, name, path, target=None):
-            if name != 'xdoctest.doctest_example' or _Hook.busy:
+            if name != 'xdoctest' or _Hook.busy:
                 return None
             _Hook.busy = True
             try:
